@@ -295,8 +295,12 @@ class Capabilities(dict[int, Capability]):
         # Extended optional parameters (RFC 9072)
         option_len: int = data[0]
 
-        # Check for extended format marker
-        if option_len == Capabilities.EXTENDED_LENGTH:
+        # Check for extended format marker. RFC 9072 section 2: the extended encoding is in use when the Non-Ext OP
+        # Type (the octet after the length) is 255; the Non-Ext OP Len SHOULD be 255 and MUST be ignored on receipt.
+        # Looked at only when the length octet was 255, `10 ff 0007 ...` was read as plain and refused as truncated.
+        if option_len == Capabilities.EXTENDED_LENGTH or (
+            option_len and len(data) >= 2 and data[1] == Capabilities.EXTENDED_LENGTH
+        ):
             # Extended format needs at least 4 bytes: marker + type + 2-byte length
             if len(data) < 4:
                 raise Notify(2, 0, f'OPEN extended parameters too short: need 4 bytes, got {len(data)}')
